@@ -113,10 +113,14 @@ class Result:
         known = 0
         for key in sorted(groups, key=repr):
             vs = groups[key]
+            n_inst = 0
+            for v in vs:
+                d = v.detail if isinstance(v.detail, dict) else {}
+                n_inst += int(d.get('instances', d.get('failing_cases_in_run', 1)) or 1)
             if key in listed:
                 known += 1
                 print('KNOWN-FINDING: property=%s %s at %s: %s (%d instance%s)' % (
-                    key[0], key[1], key[2], key[3], len(vs), '' if len(vs) == 1 else 's'))
+                    key[0], key[1], key[2], key[3], n_inst, '' if n_inst == 1 else 's'))
             else:
                 unlisted += 1
                 path = write_replay(vs[0], len(vs))
